@@ -446,6 +446,7 @@ GOOD_MACHINE = {
     "guarantees": [{"constant": 2.0, "coefficients": {"y": 1.0, "x": -1.0}}, {"constant": 3, "coefficients": {"y": -1}}],
 }
 GOOD_HUMAN = {"input_vars": ["x"], "output_vars": ["y"], "assumptions": ["x <= 1"], "guarantees": ["y - x <= 2", "-y <= 3"]}
+GOOD_COMPOUND = {"input_vars": ["x"], "output_vars": ["y"], "assumptions": [["x <= 1"], ["x >= 2", "x <= 3"]], "guarantees": [["y - x <= 2"], ["-y <= 3"]]}
 WRONG = [None, 3, 2.5, "s", True, [], [1], {}, {"a": 1}, ["x", 3], [None]]
 
 
@@ -491,6 +492,9 @@ def c14_faults():
         for mut in _mutations(good):
             for route in ("direct", "file"):
                 cases.append({"op": "fault", "rep": rep, "mut": list(mut), "route": route})
+    # compound contracts exist in the file form only
+    for mut in _mutations(GOOD_COMPOUND):
+        cases.append({"op": "fault", "rep": "compound", "mut": list(mut), "route": "file"})
     # file-entry level faults
     entry = {"type": "PolyhedralIoContract_machine", "name": "c", "data": GOOD_MACHINE}
     for mut in _mutations(entry):
@@ -538,6 +542,8 @@ def _c14_fault_eval(p, out, mut):
                 out["stats"]["accepted"] = 1
                 return out
             data = [{"type": "PolyhedralIoContract_machine" if p["rep"] == "machine" else "PolyhedralIoContract", "name": "c", "data": d}]
+        elif p["rep"] == "compound":
+            data = [{"type": "PolyhedralIoContractCompound", "name": "c", "data": _apply(GOOD_COMPOUND, mut)}]
         elif p["rep"] == "entry":
             data = [_apply({"type": "PolyhedralIoContract_machine", "name": "c", "data": GOOD_MACHINE}, mut)]
         else:
